@@ -32,6 +32,14 @@ Setups ==
     [driver |-> "Canonical", ctx |-> "disp", tmplLen |-> 0, fixcom |-> FALSE,
      mobj |-> [m1 |-> Mobj("disp", NoLab, FALSE), m2 |-> Mobj("disp", NoLab, FALSE)],
      moves |-> [a |-> Entry("single", <<"m1">>, FALSE), b |-> Entry("cdisp", <<"m1", "m1">>, FALSE), c |-> Entry("cdisp", <<"m1", "m2">>, FALSE)]],
+    \* canonical with a fixed centre of mass: a successful displacement shifts every atom, a vetoed one none
+    [driver |-> "Canonical", ctx |-> "disp", tmplLen |-> 0, fixcom |-> TRUE,
+     mobj |-> [m1 |-> Mobj("disp", NoLab, FALSE), m2 |-> Mobj("disp", NoLab, FALSE)],
+     moves |-> [a |-> Entry("single", <<"m1">>, FALSE), b |-> Entry("cdisp", <<"m1", "m1">>, FALSE), c |-> Entry("single", <<"m2">>, FALSE)]],
+    \* grand canonical with a composite exchange move (the same object twice) next to the single move
+    [driver |-> "GrandCanonical", ctx |-> "exch", tmplLen |-> 1, fixcom |-> FALSE,
+     mobj |-> [m1 |-> Mobj("exch", NoLab, FALSE), m2 |-> Mobj("disp", NoLab, FALSE)],
+     moves |-> [a |-> Entry("cexch", <<"m1", "m1">>, FALSE), b |-> Entry("single", <<"m1">>, FALSE), c |-> Entry("single", <<"m2">>, FALSE)]],
     \* isobaric: cell move (scaling), displacement, plain composite cell + displacement
     [driver |-> "Isobaric", ctx |-> "deform", tmplLen |-> 0, fixcom |-> FALSE,
      mobj |-> [m1 |-> Mobj("disp", NoLab, FALSE), m2 |-> Mobj("cell", NoLab, TRUE)],
@@ -57,7 +65,7 @@ Labelings(n, k) ==      \* label arrays of length n; particles of size k share a
 
 Init ==
     /\ setup \in Setups
-    /\ \E lab1 \in Labelings(2, IF setup.tmplLen = 2 THEN 2 ELSE 1), lab2 \in Labelings(2, IF setup.tmplLen = 2 THEN 2 ELSE 1), cons \in {{}, {1}, {2}} :
+    /\ \E lab1 \in Labelings(2, IF setup.tmplLen = 2 THEN 2 ELSE 1), lab2 \in Labelings(2, IF setup.tmplLen = 2 THEN 2 ELSE 1), cons \in (IF setup.fixcom THEN {{}} ELSE {{}, {1}, {2}}) :
          LET a0 == InitAtoms(2)
              c0 == [p |-> [i \in 1..2 |-> a0[i].pos], c |-> 300]
          IN s = [atoms |-> a0, cell |-> 300, cons |-> cons,
@@ -131,7 +139,7 @@ End == \/ /\ pc = "evaluated" /\ verdict = "acc"
 Idle == /\ pc = "ended" /\ pc' = "idle"
         /\ UNCHANGED <<setup, s, pre, cur, subsv, verdict, trials, fresh, accIns, accDel, nexch0>>
 
-Next == (\E n \in {"a", "b", "c"} : Yield(n)) \/ Call \/ (\E v \in {"acc", "rej"} : Eval(v)) \/ End \/ Idle
+Next == (\E n \in DOMAIN setup.moves : Yield(n)) \/ Call \/ (\E v \in {"acc", "rej"} : Eval(v)) \/ End \/ Idle
 Spec == Init /\ [][Next]_vars
 
 (* ---- properties ------------------------------------------------------------------------ *)
@@ -147,7 +155,7 @@ C05_InsertedParticlesShareOneLabel ==      \* atoms of one inserted particle sha
         \A m \in DOMAIN s.labels : \A i \in 1..Len(s.atoms) : (i % 2 = 1 /\ i + 1 <= Len(s.labels[m])) => s.labels[m][i] = s.labels[m][i + 1]
 \* C11: during a call of displacement-only entries, an atom whose position changed carries one of the chosen labels
 C11_OnlyChosenMove ==
-    (pc \in {"called_true", "called_false"} /\ \A i \in 1..Len(subsv) : subsv[i].k = "disp") =>
+    (pc \in {"called_true", "called_false"} /\ ~setup.fixcom /\ \A i \in 1..Len(subsv) : subsv[i].k = "disp") =>
         \A j \in 1..Len(s.atoms) : s.atoms[j].pos # pre.atoms[j].pos =>
             \E i \in 1..Len(subsv) : subsv[i].ok /\ pre.labels[setup.moves[cur].elems[i]][j] = subsv[i].lab /\ subsv[i].lab >= 0
 C11_NoRepeatInComposite ==
